@@ -25,7 +25,8 @@ def sh(cmd, **kw):
 def build_dir():
     if REPO == "/repo":
         return os.path.join(ROOT, ".build")
-    return os.path.join(ROOT, ".build", "alt-" + str(abs(hash(REPO)) % 10**8))
+    import hashlib
+    return os.path.join(ROOT, ".build", "alt-" + hashlib.md5(REPO.encode()).hexdigest()[:8])
 
 
 def modfile_args(bd):
@@ -75,7 +76,11 @@ def build_group(gname):
             args += ["-overlay", os.path.join(odir, "overlay.json")]
         out = os.path.join(bd, "bin", gname)
         args += ["-o", out, g["pkg"]]
-        r = sh(args)
+        env = dict(os.environ)
+        if g.get("overlay"):
+            # overlays on module-cache files are ignored by the module index; read sources directly
+            env["GODEBUG"] = "goindex=0"
+        r = sh(args, env=env)
         if r.returncode != 0:
             # The harness could not be compiled against the current tree.  That is
             # neither "held" nor "violated".
